@@ -307,7 +307,7 @@ def run(col):
                 "both signs, 8 unit spellings / 4 object kinds: value x SI(prefix) must be the same amount; (b) the instruction text "
                 "of ~420 direct operations (transfers from liquid-bearing / solids-only / enzymes-only sources with quantities 1e-9..1 "
                 "in L, g, mol, U; dilute; fill_to; create_solution; create_solution_from; constructor) and (c) RecipeStep.instructions "
-                "and container instructions for the last step of every program of <= 2 (quick) / 3 (thorough) steps: every token "
+                "and container instructions for the last step of every program of <= 3 (quick) / 4 (thorough) steps: every token "
                 "'<number> <unit>[ of <name>]' must equal, at its displayed decimals, a true amount of that operation (changes and "
                 "amounts of each substance, totals, capacity, requested values). Non-trivial = distinct (family, operation, had-token)")
     col.assumptions += ["a line without any amount token is not judged (counted as unparsed)",
@@ -324,7 +324,7 @@ def run(col):
             tokens += ntok
             classes.add(('direct',) + cls)
         total += len(acts)
-        voc, programs, _ = e2.successful_programs(pp, vidx, 2 if col.tier == 'quick' else 3)
+        voc, programs, _ = e2.successful_programs(pp, vidx, 3 if col.tier == 'quick' else 4)
         _G.update(voc=voc)
         for vs, ntok, cls in par.pmap(_program, programs, chunk=4):
             col.add(vs)
